@@ -34,7 +34,7 @@ SPEC = {
              "collection on and at least one rank is traced; distinct = distinct case."),
     "shards": {"quick": 16, "thorough": 16},
     "min_counts": {"quick": {"evaluations": 150, "differential_runs": 150, "op_executions_tapped": 1000,
-                             "numiters_checked": 150, "isolation_sessions": 200, "dump_compares": 300}},
+                             "numiters_checked": 150, "isolation_sessions": 200, "dump_compares": 300, "conv_runs": 60}},
     "assumptions": [
         "num_cached_uses is configuration, not session state: it is set to the same value before every run of the kernel under test",
         "counting rule for adds follows the documented choice: an accumulate into a zero-valued box is an update, not an add",
@@ -49,7 +49,16 @@ _ops = {"c": None}
 
 def generate(rng, tier, shard, nshards, mon):
     n = (960 if tier == "quick" else 40000) // nshards
-    for _ in range(n):
+    for i in range(n):
+        if i % 6 == 5:
+            # 1-D convolution through project(): O[q] += I[q + s] * F[s]
+            W = rng.randint(2, 9)
+            S = rng.randint(1, 3)
+            from fvmon import gen
+            yield {"kind": "conv", "i": gen.rand_leaf_spec(rng, W, 0.7, 0.0, 0), "f": gen.rand_leaf_spec(rng, S, 0.8, 0.0, 0),
+                   "W": W, "S": S, "sp": rng.choice(["none", "plain", "boxed", "boxed"]),
+                   "traces": rng.choice(["all", "all", "some", "none"]), "ncu": rng.choice([2, 3, 1000])}
+            continue
         spec = kernels.rand_spec(rng, tiles=True)
         lv = spec["order"]
         # uncompressed-format ranks (zero-valued operands reach the body) and a pre-populated, dirty output
@@ -102,13 +111,21 @@ class _Bodies(kernels.Observer):
     def __init__(self):
         self.per_rank = {}
         self.leaves = 0
+        self.tally = {"payload_mul": 0, "payload_add": 0, "payload_update": 0}
 
     def body(self, d, var, coord, point):
         r = kernels.rid(var)
         self.per_rank[r] = self.per_rank.get(r, 0) + 1
 
-    def leaf(self, point, factors, prod, updated):
+    def leaf(self, point, factors, prod, updated, old=None):
         self.leaves += 1
+        # what the kernel itself executed at this leaf: (factors - 1) multiplies and, if it reduced, one update
+        # that is an add unless it accumulated into a zero-valued box (documented counting rule)
+        self.tally["payload_mul"] += len(factors) - 1
+        if updated:
+            self.tally["payload_update"] += 1
+            if old != 0:
+                self.tally["payload_add"] += 1
 
 
 def _read_files(prefix):
@@ -139,7 +156,7 @@ def _session(spec, prefix, traces, ncu, tap=None, abandon_after=None):
                 pass
 
             class _Ab(_Bodies):
-                def leaf(self_, point, factors, prod, updated):
+                def leaf(self_, point, factors, prod, updated, old=None):
                     self_.leaves += 1
                     if self_.leaves > abandon_after:
                         raise _Quit()
@@ -154,7 +171,7 @@ def _session(spec, prefix, traces, ncu, tap=None, abandon_after=None):
     Metrics.endCollect()
     dump = Metrics.dump()
     return {"dump": {k: dict(v) for k, v in (dump or {}).items()}, "files": _read_files(prefix), "bodies": dict(obs.per_rank),
-            "zsnap": snap_values(Z), "leaves": obs.leaves}
+            "zsnap": snap_values(Z), "leaves": obs.leaves, "tally": dict(obs.tally)}
 
 
 def _project_session(e, prefix, abandon):
@@ -177,7 +194,96 @@ def _project_session(e, prefix, abandon):
     Metrics.endCollect()
 
 
+def _conv(case, prefix, collect):
+    """-> (content of O, dump, tally)"""
+    from fvmon import gen
+    from fvmon.observe import content
+    W, S = case["W"], case["S"]
+    Q = W
+    i_t = Tensor.fromFiber(rank_ids=["W"], fiber=gen.fiber_from_spec(case["i"], 0), shape=[W])
+    f_t = Tensor.fromFiber(rank_ids=["S"], fiber=gen.fiber_from_spec(case["f"], 0), shape=[S])
+    o_t = Tensor(rank_ids=["Q"], shape=[Q])
+    i_w, f_s, o_q = i_t.getRoot(), f_t.getRoot(), o_t.getRoot()
+    tally = {"payload_mul": 0, "payload_add": 0, "payload_update": 0}
+    sp = None
+    if case["sp"] != "none" and len(i_w.coords) > 0:
+        sp = Payload(0) if case["sp"] == "boxed" else 0
+    if collect:
+        Metrics.setNumCachedUses(case["ncu"])
+        Metrics.beginCollect(prefix)
+        if case["traces"] != "none":
+            names = [("S", "iter"), ("W", "iter"), ("W", "project_0"), ("W", "project_1"), ("Q", "populate_read_0"),
+                     ("Q", "populate_write_0"), ("Q", "populate_1"), ("W", "project_2")]
+            if case["traces"] == "some":
+                names = names[::2]
+            for r, tt in names:
+                Metrics.trace(r, type_=tt)
+    for s, f_val in f_s:
+        kw = {} if sp is None else {"start_pos": sp}
+        lazy = o_q << i_w.project(trans_fn=lambda w, s=s: w - s, interval=(0, Q), rank_id="Q", tick=True, **kw)
+        for q, (o_ref, i_val) in lazy.iterOccupancy(tick=False):
+            old = Payload.get(o_ref)
+            o_ref += i_val * f_val
+            tally["payload_mul"] += 1
+            tally["payload_update"] += 1
+            if old != 0:
+                tally["payload_add"] += 1
+    dump = None
+    if collect:
+        Metrics.endCollect()
+        dump = {k: dict(v) for k, v in (Metrics.dump() or {}).items()}
+    return content(o_t, 0), dump, tally
+
+
+def _run_conv(case, mon):
+    tmp = tempfile.mkdtemp(prefix="fv15c-")
+    tap = _counter()
+    try:
+        try:
+            c_off, _, t_off = _conv(case, None, False)
+            tap.reset()
+            tap.active = True
+            try:
+                c_on, dump, tally = _conv(case, os.path.join(tmp, "c"), True)
+            finally:
+                tap.active = False
+        except BaseException as e:      # noqa
+            if isinstance(e, KeyboardInterrupt):
+                raise
+            _abort_session()
+            mon.violation(f"conv-under-collection:raised:{type(e).__name__}", f"projection kernel raised {type(e).__name__}: {e}; {case}")
+            return
+        mon.count("conv_runs")
+        mon.count("differential_runs")
+        want = {}
+        iv, fv = dict((c, v) for c, v in case["i"]), dict((c, v) for c, v in case["f"])
+        for s_, f_ in fv.items():
+            for w_, i_ in iv.items():
+                if 0 <= w_ - s_ < case["W"] and i_ * f_ != 0:
+                    want[(w_ - s_,)] = want.get((w_ - s_,), 0) + i_ * f_
+        want = {k: v for k, v in want.items() if v != 0}
+        mon.check(c_off == want, "conv:result", f"projection kernel result {c_off}, dense convolution {want}; {case}")
+        mon.check(c_on == c_off, "transparency:output-differs", f"projection kernel output differs between collection off and on; {case}")
+        tapped = tap.expected_metrics()
+        mon.count("op_executions_tapped", sum(tap.counts.values()))
+        mon.check(tapped == tally, "exactness:library-runs-payload-arithmetic-of-its-own",
+                  f"operator executions tapped inside the session {tapped} differ from what the kernel body executed {tally}; {case}")
+        comp = (dump or {}).get("Compute", {})
+        for metric, w in tally.items():
+            mon.check(comp.get(metric, 0) == w, f"exactness:{metric}",
+                      f"Metrics reports {metric}={comp.get(metric, 0)}, the kernel executed {w}; projection kernel {case}")
+        if tally["payload_mul"] >= 2:
+            mon.nontrivial()
+        mon.state(("conv", tally["payload_mul"], case["sp"], case["traces"]))
+    finally:
+        _abort_session()
+        shutil.rmtree(tmp, ignore_errors=True)
+
+
 def run_case(case, mon):
+    if case.get("kind") == "conv":
+        _run_conv(case, mon)
+        return
     spec = case["spec"]
     traces = [tuple(t) for t in case["traces"]]
     ncu = case["ncu"]
@@ -206,14 +312,19 @@ def run_case(case, mon):
         mon.check(s0["zsnap"] == z_off, "transparency:output-differs",
                   f"kernel output differs between collection off and on (traces {traces}); spec {spec['ops']}->{spec['out']!r} "
                   f"order={spec['order']} style={spec['style']} tiles={spec['tiles']}")
-        exp = tap.expected_metrics()
+        exp = s0["tally"]           # the operations the kernel itself executed (interpreter's own tally)
+        tapped = tap.expected_metrics()
         n_ops = sum(tap.counts.values())
         mon.count("op_executions_tapped", n_ops)
+        # every Payload operator execution inside the session is one the kernel wrote: the library itself must not
+        # run (and count) payload arithmetic for its bookkeeping
+        mon.check(tapped == exp, "exactness:library-runs-payload-arithmetic-of-its-own",
+                  f"operator executions tapped inside the session {tapped} differ from what the kernel body executed {exp}")
         comp = s0["dump"].get("Compute", {})
         for metric, want in exp.items():
             got = comp.get(metric, 0)
             mon.check(got == want, f"exactness:{metric}",
-                      f"Metrics reports {metric}={got}, the taps saw {want} (operator executions {dict(tap.counts)}, "
+                      f"Metrics reports {metric}={got}, the kernel executed {want} (operator executions tapped {dict(tap.counts)}, "
                       f"accumulates into non-zero boxes {tap.iadd_nonzero})")
             if "Compute" in s0["dump"]:
                 try:
